@@ -356,6 +356,32 @@ def gen_churn(rng, rig):
     return {'op': 'churn', 'rig': rig, 'checks': checks, 'cfg': cfg, 'cmds': cmds, 'tail': tail}
 
 
+def gen_check_rows(rng):
+    """consecutive Check calls on a service with 2-3 ServiceCheck-backed checks whose functions are scripted per
+    call over {True, False, None, raise, non-bool}; check_ttl 0 (mostly), so every answer needs every check
+    evaluated again; the rows CHANGE from call to call (mixed rows with None in either position)"""
+    n = rng.choice([2, 2, 3])
+    ttl = rng.choice([0, 0, 0, 1, 8])
+    checks = []
+    ncalls = rng.choice([2, 3, 5, 8])
+    for _ in range(n):
+        if rng.random() < 0.15:
+            checks.append({'status': rng.choice([1, 0, 2])})
+        else:
+            checks.append({'ttl': ttl, 'tmo': rng.choice([8, 24]),
+                           'script': [[rng.choice([-1, -1, -1, 0, 1]), rng.choice('TTTNNNFRB')] for _ in range(3 * ncalls + 2)]})
+    if all('status' in c for c in checks):
+        checks[0] = {'ttl': 0, 'tmo': 8, 'script': [[-1, rng.choice('TNF')] for _ in range(3 * ncalls + 2)]}
+    cfg = [[1, list(range(n))]]
+    if rng.random() < 0.4:
+        cfg.append([2, rng.sample(range(n), 2)])
+    events, t = [], 0
+    for _ in range(ncalls):
+        events.append([t, 'check', rng.choice([1, 1, 1, 0, 2 if len(cfg) > 1 else 1])])
+        t += rng.choice([2 * n + 1, 2 * n + 1, 2 * n + 2, 9, 2 * n + 1 + ttl])
+    return {'op': 'sce2e', 'checks': checks, 'cfg': cfg, 'events': events, 'horizon': t + 60}
+
+
 def gen_sce2e(rng):
     nchecks = rng.choice([1, 1, 2, 3])
     checks = []
@@ -746,6 +772,19 @@ def oracle_sce2e(res, case, out):
             fail(res, case, 'Check answered %r at t=%d, the checks say %r' % (r, c['t1'], exp),
                  {'kind': 'check-wrong'}, {'call': c, 'logs': out['logs']})
         if c['name'] in reg:
+            # every check of the service is (re)evaluated for each answer: visited at some instant in [t0, t1], a
+            # ServiceCheck either had a completed run younger than its check_ttl, or a run in flight, or it ran
+            for i in sorted(reg[c['name']]):
+                spec = case['checks'][i]
+                if 'ttl' not in spec:
+                    continue
+                seen = any((c['t0'] <= s0 <= c['t1']) or e0 is None or e0 > c['t0'] - spec['ttl']
+                           for s0, e0, _ in out['logs'][i])
+                if not seen:
+                    fail(res, case, 'Check(%d) answered at t=%d without evaluating check %d: its function was neither run '
+                         'during the call [%d, %d] nor is there a result younger than check_ttl=%d'
+                         % (c['name'], c['t1'], i, c['t0'], c['t1'], spec['ttl']),
+                         {'kind': 'check-not-evaluated'}, {'call': c, 'log': out['logs'][i][-4:]})
             budget = sum(case['checks'][i].get('tmo', 0) for i in reg[c['name']])
             if c['t1'] - c['t0'] > budget:
                 fail(res, case, 'Check took %d ticks, the timeouts of its checks add up to %d' % (c['t1'] - c['t0'], budget),
@@ -1049,6 +1088,8 @@ def run(ctx):
         cases.append(gen_sc_history(rng))
     for _ in range(ctx.n(200, 5000)):
         cases.append(gen_sce2e(rng))
+    for _ in range(ctx.n(400, 8000)):
+        cases.append(gen_check_rows(rng))
     for _ in range(ctx.n(150, 3000)):
         cases.append(gen_unsub(rng))
     for _ in range(ctx.n(600, 12000)):
